@@ -6,6 +6,8 @@ The variant bank lives in /verif:
   seeded_fixes/<commit>/patch.diff  each `fix:` commit of /repo, reverted
   benign/<id>/patch.diff            behaviour-preserving refactorings (must stay silent)
   seeded_neutralised/<id>/…         changes that no longer break anything (must stay silent)
+  repaired/<id>/patch.diff          seeded commits of round 4 with the regression taken out (must stay silent, except for the
+                                    conservative alarms documented per variant in its meta.json)
 Each meta.json lists ``expected_checks``: the properties whose check is known to fire on that variant.
 
 For property P the self-test applies every variant that concerns P to a scratch copy of the *current* tree of
@@ -58,6 +60,20 @@ def _variants(prop: str) -> List[Tuple[str, str, str]]:
             pp = os.path.join(base, v, "patch.diff")
             if os.path.exists(pp):
                 out.append((f"{dn}/{v}", pp, "silent"))
+    # repaired commits: silent, except where meta.json documents a conservative alarm of this property (then either outcome is
+    # accepted: the alarm is a known over-approximation, its disappearance an improvement)
+    base = os.path.join(VERIF, "repaired")
+    for v in sorted(os.listdir(base)) if os.path.isdir(base) else []:
+        pp = os.path.join(base, v, "patch.diff")
+        mp = os.path.join(base, v, "meta.json")
+        if not os.path.exists(pp):
+            continue
+        try:
+            meta = json.load(open(mp))
+        except Exception:
+            meta = {}
+        documented = prop in (meta.get("conservative_alarm") or {}).get("checks", [])
+        out.append((f"repaired/{v}", pp, "either" if documented else "silent"))
     return out
 
 
@@ -89,8 +105,10 @@ def run_for(prop: str, repo: str) -> Dict:
     skipped = [n for n, e, g in results if g == "skipped"]
     # a benign variant that ends as analysis-error is not an alarm (exit 2 is never a verdict), but it is reported
     inconclusive = [n for n, e, g in results if g == "analysis-error"]
-    failures = [f"{n}: expected {e}, got {g}" for n, e, g in results if g not in ("skipped", "analysis-error") and g != e]
+    documented = [n for n, e, g in results if e == "either" and g == "fire"]
+    failures = [f"{n}: expected {e}, got {g}" for n, e, g in results if g not in ("skipped", "analysis-error") and g != e and e != "either"]
     return {
+        "repaired_commits_with_documented_conservative_alarm": len(documented),
         "variants": len(results),
         "broken_variants_fired": len(fired),
         "benign_variants_silent": len(silent),
